@@ -80,25 +80,25 @@ fn uint_writer<const W: usize, const CLASS: usize>() {
     kani::assume(ref_uint_width(v) == CLASS);
     let mut w = TagWriter::new(Sink::new(SINK));
     let r = w.verif_write_unsigned_int_tag::<W>(flat::U, &v);
-    assert!(r.is_ok(), "C16/C09/C01b: every u64 is writable");
+    assert!(r.is_ok(), "C16/C09/C01/C02b: every u64 is writable");
     let width = CLASS;
     let sl = if W == 0 { 1 } else { W };
     kani::cover!(v == 0 || CLASS > 1, "reached");
     let buf = w.verif_buf();
-    assert!(buf.len() == 1 + sl + width, "C16/C09/C01b: unsigned payload uses the minimal 1/2/4/8-byte width");
-    assert!(buf[0] == flat::U as u8, "C16/C09/C01b: id first");
+    assert!(buf.len() == 1 + sl + width, "C16/C09/C01/C02b: unsigned payload uses the minimal 1/2/4/8-byte width");
+    assert!(buf[0] == flat::U as u8, "C16/C09/C01/C02b: id first");
     check_size_field::<W>(buf, 1, width);
     let be = v.to_be_bytes();
     let mut i = 0;
     while i < 8 {
         if i < width {
-            assert!(buf[1 + sl + i] == be[8 - width + i], "C16/C09/C01b: unsigned payload is big-endian");
+            assert!(buf[1 + sl + i] == be[8 - width + i], "C16/C09/C01/C02b: unsigned payload is big-endian");
         }
         i += 1;
     }
     if W == 0 {
         // (with an explicit width only the size field differs; the payload bytes are asserted above)
-        assert!(matches!(tools::arr_to_u64(&buf[1 + sl..]), Ok(d) if d == v), "C16/C09/C01b: decoder inverts the unsigned encoder");
+        assert!(matches!(tools::arr_to_u64(&buf[1 + sl..]), Ok(d) if d == v), "C16/C09/C01/C02b: decoder inverts the unsigned encoder");
     }
     core::mem::forget(r);
     core::mem::forget(w);
@@ -109,25 +109,25 @@ fn int_writer<const W: usize, const CLASS: usize>() {
     kani::assume(ref_int_width(v) == CLASS);
     let mut w = TagWriter::new(Sink::new(SINK));
     let r = w.verif_write_signed_int_tag::<W>(flat::I, &v);
-    assert!(r.is_ok(), "C16/C09/C01b: every i64 is writable");
+    assert!(r.is_ok(), "C16/C09/C01/C02b: every i64 is writable");
     let width = CLASS;
     let sl = if W == 0 { 1 } else { W };
     kani::cover!(v < 0, "negative value reached");
     kani::cover!(v >= 0, "non-negative value reached");
     let buf = w.verif_buf();
-    assert!(buf.len() == 1 + sl + width, "C16/C09/C01b: signed payload uses the minimal 1/2/4/8-byte two's-complement width");
-    assert!(buf[0] == flat::I as u8, "C16/C09/C01b: id first");
+    assert!(buf.len() == 1 + sl + width, "C16/C09/C01/C02b: signed payload uses the minimal 1/2/4/8-byte two's-complement width");
+    assert!(buf[0] == flat::I as u8, "C16/C09/C01/C02b: id first");
     check_size_field::<W>(buf, 1, width);
     let be = v.to_be_bytes();
     let mut i = 0;
     while i < 8 {
         if i < width {
-            assert!(buf[1 + sl + i] == be[8 - width + i], "C16/C09/C01b: signed payload is big-endian two's complement");
+            assert!(buf[1 + sl + i] == be[8 - width + i], "C16/C09/C01/C02b: signed payload is big-endian two's complement");
         }
         i += 1;
     }
     if W == 0 {
-        assert!(matches!(tools::arr_to_i64(&buf[1 + sl..]), Ok(d) if d == v), "C16/C09/C01b: decoder inverts the signed encoder");
+        assert!(matches!(tools::arr_to_i64(&buf[1 + sl..]), Ok(d) if d == v), "C16/C09/C01/C02b: decoder inverts the signed encoder");
     }
     core::mem::forget(r);
     core::mem::forget(w);
@@ -174,13 +174,13 @@ fn float_writer<const W: usize>() {
     let v = f64::from_bits(bits);
     let mut w = TagWriter::new(Sink::new(SINK));
     let r = w.verif_write_float_tag::<W>(flat::F, &v);
-    assert!(r.is_ok(), "C16/C09/C01b: every f64 is writable");
+    assert!(r.is_ok(), "C16/C09/C01/C02b: every f64 is writable");
     let sl = if W == 0 { 1 } else { W };
     let buf = w.verif_buf();
-    assert!(buf.len() == 1 + sl + 8 && buf[0] == flat::F as u8, "C16/C09/C01b: float is written as 8 bytes");
+    assert!(buf.len() == 1 + sl + 8 && buf[0] == flat::F as u8, "C16/C09/C01/C02b: float is written as 8 bytes");
     check_size_field::<W>(buf, 1, 8);
-    assert!(ref_be_u64(&buf[1 + sl..], 8) == bits, "C16/C09/C01b: float payload is the IEEE-754 bit pattern, big-endian");
-    assert!(matches!(tools::arr_to_f64(&buf[1 + sl..]), Ok(d) if d.to_bits() == bits), "C16/C09/C01b: decoder inverts the float encoder bit for bit");
+    assert!(ref_be_u64(&buf[1 + sl..], 8) == bits, "C16/C09/C01/C02b: float payload is the IEEE-754 bit pattern, big-endian");
+    assert!(matches!(tools::arr_to_f64(&buf[1 + sl..]), Ok(d) if d.to_bits() == bits), "C16/C09/C01/C02b: decoder inverts the float encoder bit for bit");
     kani::cover!(v.is_nan(), "NaN reached");
     core::mem::forget(r);
     core::mem::forget(w);
@@ -747,4 +747,60 @@ fn c10_stream_unknown_in_known() { stream_contract(vec![(tree::ROOT, EBMLSize::K
 wstubs! {
 #[kani::unwind(12)]
 fn c10_stream_known_in_unknown() { stream_contract(vec![(tree::ROOT, EBMLSize::Unknown, 0), (tree::A, EBMLSize::Known(0), 0)], true) }
+}
+
+// ------------------------------------------------------------------ C10: write_raw and flush()
+/// write_raw under [Root known-size, A unknown-size]: nothing may be handed over while Root is open
+fn raw_stream_contract(open: Vec<(u64, EBMLSize, usize)>, any_known: bool) {
+    let payload: [u8; 2] = kani::any();
+    let pre: [u8; 3] = kani::any();
+    let mut w = TagWriter::new(Sink::new(SINK));
+    let buffered = if any_known { pre.to_vec() } else { Vec::new() };
+    let nbuf = buffered.len();
+    w.verif_seed(open, buffered);
+    let r = w.write_raw(tree::VOID, &payload);
+    assert!(r.is_ok(), "C10: a raw element is writable");
+    let d = w.get_ref();
+    if any_known {
+        assert!(d.len == 0, "C10: while a known-size master is open (at any depth) none of its content is handed over, also for raw writes");
+        assert!(w.verif_buf().len() == nbuf + 4, "C10: the raw element stays buffered");
+    } else {
+        assert!(w.verif_buf().is_empty() && d.len == 4 && d.data[0] == tree::VOID as u8 && d.data[1] == 0x82 && d.data[2] == payload[0] && d.data[3] == payload[1],
+            "C10: with no known-size master open the raw element is handed over completely");
+    }
+    kani::cover!(payload[1] != 0, "non-zero payload reached");
+    core::mem::forget(r);
+    core::mem::forget(w);
+}
+wstubs! {
+#[kani::unwind(12)]
+fn c10_raw_unknown_in_known() { raw_stream_contract(vec![(tree::ROOT, EBMLSize::Known(0), 0), (tree::A, EBMLSize::Unknown, 0)], true) }
+}
+wstubs! {
+#[kani::unwind(12)]
+fn c10_raw_unknown_only() { raw_stream_contract(vec![(tree::ROOT, EBMLSize::Unknown, 0)], false) }
+}
+
+wstubs! {
+#[kani::unwind(12)]
+fn c10_flush_closes_empty_master() {
+    // a known-size master was started and nothing written yet: flush() must still close it and deliver its header
+    let known_outer: bool = kani::any();
+    let mut w = TagWriter::new(Sink::new(SINK));
+    if known_outer {
+        w.verif_seed(vec![(tree::ROOT, EBMLSize::Known(0), 0)], Vec::new());
+    } else {
+        w.verif_seed(vec![(tree::ROOT, EBMLSize::Unknown, 0), (tree::A, EBMLSize::Known(0), 0)], Vec::new());
+    }
+    let r = w.flush();
+    assert!(r.is_ok(), "C10: flush succeeds");
+    assert!(w.verif_open().is_empty(), "C10: flush() closes all open masters");
+    assert!(w.verif_buf().is_empty(), "C10: flush() leaves nothing buffered");
+    let d = w.get_ref();
+    let id = if known_outer { tree::ROOT } else { tree::A };
+    assert!(d.len == 2 && d.data[0] == id as u8 && d.data[1] == 0x80, "C10: flush() delivers the header of a master that was opened but is still empty");
+    kani::cover!(!known_outer, "empty known-size master under an unknown-size one reached");
+    core::mem::forget(r);
+    core::mem::forget(w);
+}
 }
